@@ -92,6 +92,16 @@ class W:
         self.label = label
 
 
+class WEmpty(W):
+    """a weakly referenced argument that is alive but falsy (like an empty MonitoredList / list walker, the
+    typical weak argument in urwid's own widgets): liveness, not truth, decides whether a handler runs"""
+
+    __slots__ = ()
+
+    def __len__(self):
+        return 0
+
+
 class SenderMeta(metaclass=urwid.MetaSignals):
     signals = ["a", "b"]  # noqa: RUF012
 
@@ -209,7 +219,7 @@ class State:
         if o is None:
             self.wgen[k] += 1
             label = f"w{k}.{self.wgen[k]}"
-            o = W(label)
+            o = (WEmpty if k % 2 else W)(label)
             self.pool[k] = o
             # registered before any of urwid's weakrefs; only does model bookkeeping
             self.wrefs[k] = weakref.ref(o, lambda _r, label=label: self.on_death(label))
@@ -368,7 +378,7 @@ class State:
                 f"the emitted arguments are not its last arguments",
             )
         head = args[: len(args) - ne]
-        sig = (h, *((("W", a.label) if type(a) is W else a) for a in head))
+        sig = (h, *((("W", a.label) if isinstance(a, W) else a) for a in head))
         if sig not in fr.ok:
             want = [list(c.sig[1:]) for c in fr.S + fr.added if c.h == h]
             if want:
@@ -394,7 +404,7 @@ class State:
         if me is not None:
             fr.seen.add(me.cid)
         fr.cur = me
-        labels = [a.label for a in head if type(a) is W]
+        labels = [a.label for a in head if isinstance(a, W)]
         for lbl in labels:
             self.inuse[lbl] = self.inuse.get(lbl, 0) + 1
         del args, head
@@ -409,7 +419,7 @@ class State:
 
     @staticmethod
     def show(args):
-        return [(f"<{a.label}>" if type(a) is W else a) for a in args]
+        return [(f"<{a.label}>" if isinstance(a, W) else a) for a in args]
 
     def behave(self, h, fr, me):
         beh = self.hspecs[h]["beh"]
